@@ -216,7 +216,7 @@ func Layer(r *ev.Run) {
 			r.Violation(fmt.Sprintf("handler: connection handler panicked (%s input): %s", dir, sig), detail)
 		}
 	}
-	n := r.Pick(200, 20000)
+	n := r.Pick(200, 800)
 	// (a) hostile client bytes
 	for i := 0; i < n; i++ {
 		r.Case()
@@ -300,7 +300,7 @@ func Layer(r *ev.Run) {
 	// answers (libpq pipeline mode, asynchronous drivers): the proxy's client-side goroutine analyses statement n+1 while its
 	// database-side goroutine handles the answers to statement n. Shared per-session state touched by both must survive that;
 	// a runtime fatal error ("concurrent map writes") takes the whole process down, a recovered panic is reported by the hook.
-	rounds := r.Pick(6, 60)
+	rounds := r.Pick(6, 24)
 	for round := 0; round < rounds; round++ {
 		r.Case()
 		c, _, err := proxyrig.DialPG(a.Port)
